@@ -191,6 +191,7 @@ fn handle_item(
                                         file_context,
                                     )?;
                                 }
+                                thead.check_deferred().at(pos)?;
                                 push_items(dest, thead.into_iter())
                                     .at(pos)?;
                                 scope.do_use(
